@@ -504,6 +504,52 @@ func (m FinalizerMonitor) OnWrite(x *Ctx, w *Write) {
 	}
 }
 
+// OnState: "deletion is never blocked forever" - at a final state (every controller idle, time changes nothing
+// any more) no Rollout, BatchRelease or TrafficRouting may still be waiting for a finalizer of these controllers.
+func (m FinalizerMonitor) OnState(x *Ctx, quiescent bool) {
+	if !quiescent {
+		return
+	}
+	for _, res := range []string{"rollouts", "batchreleases", "trafficroutings"} {
+		for _, o := range x.W.Store.PeekAll(res) {
+			a := accessor(o)
+			if a.GetDeletionTimestamp() == nil {
+				continue
+			}
+			x.Count("C18 deleting objects at final states judged")
+			var own []string
+			for _, f := range a.GetFinalizers() {
+				if !strings.Contains(f, "rollouts.kruise.io") {
+					continue
+				}
+				// a Rollout's guard on a TrafficRouting it is still using does its job: the deletion waits until that
+				// rollout has finished (the user may still approve it), it is not blocked for ever
+				if strings.HasPrefix(f, "progressing.rollouts.kruise.io/") {
+					if ro := getRollout(x.W, x.Sc); ro != nil && ro.Name == strings.TrimPrefix(f, "progressing.rollouts.kruise.io/") && ro.DeletionTimestamp == nil &&
+						ro.Status.Phase == rolloutsv1beta1.RolloutPhaseProgressing {
+						continue
+					}
+				}
+				own = append(own, f)
+			}
+			if len(own) > 0 {
+				sig := "C18/stuck/" + res + "-deletion-blocked"
+				// history classes of two established root causes (§0.3): the Rollout forgot the release (status reset
+				// mid-release), or nobody ever controlled the workload the webhook holds back
+				if x.Mon["ctx.forgotRelease"] != "" || x.Mon["ctx.statusReset"] != "" {
+					sig += "/after-the-rollout-status-was-reset-mid-release"
+				} else if v := ViewWorkload(x.W, x.Sc); v != nil && !v.Controlled {
+					br := &rolloutsv1beta1.BatchRelease{}
+					if x.W.Get(br, x.Sc.ns(), AppName) && br.Status.Phase == rolloutsv1beta1.RolloutPhaseFinalizing && br.Status.CanaryStatus.CurrentBatchState == "" {
+						sig += "/batchrelease-never-controlled-the-workload"
+					}
+				}
+				x.Violate(sig, fmt.Sprintf("every controller is idle and nothing is pending, but %s %s/%s is still being deleted and keeps the finalizer(s) %v: its deletion is blocked for ever", res, a.GetNamespace(), a.GetName(), own))
+			}
+		}
+	}
+}
+
 // routeRulesEquivalent compares HTTPRoute rules ignoring the weight of a rule's SOLE backend (semantically
 // irrelevant there; the provider normalises it to 1).
 func routeRulesEquivalent(a, b []gatewayv1beta1.HTTPRouteRule) bool {
